@@ -401,12 +401,14 @@ class ProductSpace(LinearSpace):
     @property
     def real_space(self):
         """Variant of this space with real dtype."""
-        return ProductSpace(*[space.real_space for space in self.spaces])
+        return ProductSpace(*[space.real_space for space in self.spaces],
+                            weighting=self.weighting)
 
     @property
     def complex_space(self):
         """Variant of this space with complex dtype."""
-        return ProductSpace(*[space.complex_space for space in self.spaces])
+        return ProductSpace(*[space.complex_space for space in self.spaces],
+                            weighting=self.weighting)
 
     def astype(self, dtype):
         """Return a copy of this space with new ``dtype``.
@@ -435,7 +437,8 @@ class ProductSpace(LinearSpace):
             return self
         else:
             return ProductSpace(*[space.astype(dtype)
-                                  for space in self.spaces])
+                                  for space in self.spaces],
+                                weighting=self.weighting)
 
     def element(self, inp=None, cast=True):
         """Create an element in the product space.
